@@ -25,6 +25,7 @@ fn family(prop: &str) -> &'static str {
         "C20" => "writer",
         "C21" => "cancel",
         "C24" => "create",
+        "C22" => "faultwait",
         _ => "acyclic",
     }
 }
@@ -44,6 +45,14 @@ pub fn gen_case(prop: &str, rng: &mut Rng) -> ConcCase {
         "writer" => gen_writer_case(rng),
         "cancel" => gen_cancel_case(rng),
         "create" => gen_create_case(rng),
+        "faultwait" => {
+            // few nodes, every thread asks for overlapping functions right after a write, so that
+            // one thread computes while the other waits
+            let mut c = gen_acyclic_case("C01", rng, false, false);
+            c.threads.truncate(2);
+            c.fault_at = Some(0);
+            c
+        }
         "intern" => gen_acyclic_case("C07", rng, true, false),
         _ => gen_acyclic_case(if prop == "C11" { "C11" } else { "C01" }, rng, false, prop == "C11"),
     }
@@ -115,6 +124,7 @@ fn gen_acyclic_case(base: &str, rng: &mut Rng, intern_heavy: bool, accum: bool) 
         threads,
         mode: Mode::Readers,
         post_all: true,
+        fault_at: None,
     }
 }
 
@@ -171,6 +181,7 @@ fn gen_cyclic_case(base: &str, rng: &mut Rng, prop: &str) -> ConcCase {
         threads,
         mode: Mode::Readers,
         post_all: true,
+        fault_at: None,
     }
 }
 
@@ -231,6 +242,7 @@ fn gen_writer_case(rng: &mut Rng) -> ConcCase {
         threads,
         mode: Mode::WriterReaders,
         post_all: true,
+        fault_at: None,
     }
 }
 
@@ -281,6 +293,7 @@ fn gen_cancel_case(rng: &mut Rng) -> ConcCase {
         threads,
         mode: Mode::Readers,
         post_all: true,
+        fault_at: None,
     }
 }
 
@@ -309,6 +322,7 @@ fn gen_create_case(rng: &mut Rng) -> ConcCase {
         threads,
         mode: Mode::Readers,
         post_all: false,
+        fault_at: None,
     }
 }
 
@@ -381,6 +395,15 @@ pub fn check_iter(prop: &str, case: &ConcCase, res: &IterResult) -> IterVerdict 
             (Outcome::Panic(PanicClass::Propagated, _), _) if writer && flag_during_call(&res.log, o) => {
                 // the computation this reader was waiting for was cancelled by the pending write
                 c.inc("propagated_from_cancelled_reader");
+                continue;
+            }
+            (Outcome::Panic(PanicClass::Injected, _), _) if res.fault_fired => {
+                c.inc("injected_panic_reached_caller");
+                continue;
+            }
+            (Outcome::Panic(PanicClass::Propagated, _), _) if res.fault_fired => {
+                // a thread that was waiting for the computation interrupted by the injected panic
+                c.inc("waiter_released_with_propagated_panic");
                 continue;
             }
             (Outcome::Panic(PanicClass::Local, _), _) if has_cancel => {
@@ -594,6 +617,7 @@ pub fn check_iter(prop: &str, case: &ConcCase, res: &IterResult) -> IterVerdict 
         "C20" => c.get("cancelled_pending_write") > 0 || c.get("writes") > 0,
         "C21" => c.get("cancelled_local") > 0,
         "C24" => c.get("created") > 0,
+        "C22" => res.fault_fired,
         _ => true,
     };
     let _ = BTreeMap::<u8, u8>::new();
@@ -1067,6 +1091,9 @@ fn has_mixed_cycle(case: &ConcCase) -> bool {
 
 /// Returns the known-finding signature for this violating iteration, if it fits one exactly.
 pub fn classify_conc(case: &ConcCase, res: &IterResult, violations: &[String]) -> Option<&'static str> {
+    if res.fault_fired {
+        return crate::camp_fault::classify_fault_msg(res.fault_site, &violations.join(" | "));
+    }
     let all_fix = case
         .prog
         .nodes
@@ -1252,7 +1279,24 @@ pub fn conc_case(o: &Opts, case_seed: u64) -> CaseReport {
     #[cfg(not(feature = "shuttle"))]
     {
         let runs = schedules_per_case(o);
+        let mut case = case;
+        let mut fault_total = 0u64;
+        if case.fault_at.is_some() {
+            // counting run
+            let res = run_iteration(&case, 20);
+            fault_total = res.fault_steps.max(1);
+            if res.stuck {
+                rep.inconclusive.push("counting run got stuck".into());
+                rep.fatal = true;
+                return rep;
+            }
+        }
         for k in 0..runs {
+            if fault_total > 0 {
+                let mut c2 = (*case).clone();
+                c2.fault_at = Some(1 + mix(case_seed, 77 + k as u64) % fault_total);
+                case = Arc::new(c2);
+            }
             let profile = 1 + (mix(case_seed, k as u64) % 5);
             crate::sink::FP_PROFILE.store(profile, std::sync::atomic::Ordering::Relaxed);
             crate::sink::FP_SEED.store(mix(case_seed, 1000 + k as u64), std::sync::atomic::Ordering::Relaxed);
